@@ -1,0 +1,14 @@
+//go:build verif
+
+package cmd
+
+import (
+	"github.com/consensys/gnark/backend/groth16"
+	"github.com/consensys/gnark/constraint"
+	"github.com/gin-gonic/gin"
+)
+
+// VerifGenerateProof exposes the /proof handler to the conformance harness (build tag verif only).
+func VerifGenerateProof(r1cs constraint.ConstraintSystem, pk groth16.ProvingKey, vk groth16.VerifyingKey) gin.HandlerFunc {
+	return generateProof(r1cs, pk, vk)
+}
